@@ -21,6 +21,9 @@ def render(op, variant):
     if k == "rollback":
         return None if variant % 3 == 2 else ("ROLLBACK" if variant % 3 == 0 else "rollback")
     if k == "insert":
+        if variant % 4 == 3:
+            # the same single-row insert written as a MERGE (DML in several internal steps: it must stay inside the transaction like any other)
+            return f"merge into c13_t using (select {op[1]} as id) as s on c13_t.id = s.id when not matched then insert (id) values (s.id)"
         return f"insert into c13_t values ({op[1]})"
     if k == "select":
         return "select id from c13_t"
